@@ -1,5 +1,6 @@
 SPECIFICATION Spec
 INVARIANT TypeOK
 INVARIANT SizeAgrees
+INVARIANT UniquelyDecodable
 INVARIANT EmitRecord
 CHECK_DEADLOCK FALSE
